@@ -379,6 +379,9 @@ func propC02(w *World, r *Report) {
 	linkObligations(w, r, propC19, "C19", func(o *Obligation) bool {
 		return strings.HasPrefix(o.Construct, "CopyRecent reads under the ring's lock and modifies nothing")
 	}, "P2")
+	// ... and the buffered frames stay the frames that were received: a ring slot is never handed to anything that may
+	// modify it (the who-may-receive rule of C16)
+	linkObligations(w, r, propC16, "C16", func(o *Obligation) bool { return o.Rule == "C16.R3" && strings.Contains(o.Construct, "(a ring slot)") }, "P2")
 }
 
 // ---------------------------------------------------------------------------------------
@@ -830,6 +833,12 @@ func propC04(w *World, r *Report) {
 			}
 		}
 	}
+	// "... and the file can be created": what the recorder writes into the header at a start is built from what it was
+	// given for THIS start (a text that grows from start to start exceeds the container's field limit after a few
+	// recordings, and every later start fails although motion, window and disk are fine)
+	linkObligations(w, r, propC11, "C11", func(o *Obligation) bool {
+		return o.Rule == "C11.H1" && strings.Contains(o.Construct, "header.MotionConfig at start")
+	}, "S2")
 	// S4
 	cl, _ := parseCmpLabel(roles.TrigLabel)
 	lim := strings.TrimPrefix(roles.TrigLimit, "f:")
